@@ -10,12 +10,13 @@ specified by interface and compared component-wise (every index of sa / isa / ps
 access / rank / select of every bit vector and wavelet tree)."""
 import json
 import os
+import time
 
 import vlib
 
 META = {
     "category": "proof",
-    "text": "Coq theorems (Scrunch/Props_C19.v, closed under the global context) over executable models of scrunch/src/{lib,sigma,psi/mod,psi/wavelet_tree,sa,isa,sampled,binary_search}.rs: for every text, alphabet, valid record division and needle the modelled CompressedDocument (Sigma; backward search over the WaveletTreePsi table incl. its streaming constructor, lookup, lower_bound, upper_bound and constrain; locate through the sampled suffix array; extract through the sampled inverse suffix array; record lookup by rank/select; lib.rs inverse_and_psi_u32) returns exactly the occurrences, counts, record numbers, record contents, length and record count of a plain scan, as do PsiDocument over the reference arrays and ReferenceDocument; rank/select laws and the trait-default binary searches; the prefix-code wavelet tree (prefix.rs access/rank/select over per-node bit vectors, closed for the fixed-width encoder); the two bit-vector encodings CompressedDocument uses are transcribed and proved equal to the plain bit list for every bit pattern: sparse.rs (B-tree of delta slices: from_indices / construct, access, rank, select, inherited rank0 / select0) and rrr.rs (63-bit words, classes, offsets through the binomial table K with widths L, decode inverts encode, p / r superblock samples, s0 / s1 select samples, u63::select_word, access, access_rank, rank, select, select0; no push_word assertion fails below 2^62 bits), put under the document's record boundaries and under every node of the prefix wavelet tree; SA-IS, the Huffman code book and serialisation are specified by interface only and compared with the code component-wise (every index, every bit vector, before and after re-parsing) by differential runs of Rust vs extracted model (list interface AND the structural sparse / rrr models, incl. the L / K tables entry by entry) vs a plain scan.",
+    "text": "Coq theorems (Scrunch/Props_C19.v, closed under the global context; the document theorems carry the suffix _partial, the missing parts are listed in the file's header) over executable models of scrunch/src/{lib,sigma,psi/mod,psi/wavelet_tree,sa,isa,sampled,binary_search}.rs: for every text, alphabet, valid record division and needle the modelled CompressedDocument (Sigma; backward search over the WaveletTreePsi table incl. its streaming constructor, lookup, lower_bound, upper_bound and constrain; locate through the sampled suffix array; extract through the sampled inverse suffix array; record lookup by rank/select; lib.rs inverse_and_psi_u32) returns exactly the occurrences, counts, record numbers, record contents, length and record count of a plain scan, as do PsiDocument over the reference arrays and ReferenceDocument; rank/select laws and the trait-default binary searches; the prefix-code wavelet tree (prefix.rs access/rank/select over per-node bit vectors, closed for the fixed-width encoder); the two bit-vector encodings CompressedDocument uses are transcribed and proved equal to the plain bit list for every bit pattern: sparse.rs (B-tree of delta slices: from_indices / construct, access, rank, select, inherited rank0 / select0) and rrr.rs (63-bit words, classes, offsets through the binomial table K with widths L, decode inverts encode, p / r superblock samples, s0 / s1 select samples, u63::select_word, access, access_rank, rank, select, select0; no push_word assertion fails below 2^62 bits), put under the document's record boundaries and under every node of the prefix wavelet tree; SA-IS, the Huffman code book and serialisation are specified by interface only and compared with the code component-wise (every index, every bit vector, before and after re-parsing) by differential runs of Rust vs extracted model (list interface AND the structural sparse / rrr models, incl. the L / K tables entry by entry) vs a plain scan.",
     "note": "Partial by construction: suffix sorting (SA-IS), the Huffman code book and the protobuf / byte framing (incl. the byte-at-a-time loops of BitArray load / push_word and the varint headers of the sparse nodes) are not proved (interface + correspondence). Inside the document model the sigma columns, the sampled arrays' presence vectors, y_key and WaveletTreePsi's wavelet trees stay plain lists read through the list functions the sparse / rrr theorems prove the encodings compute (C19_compressed_document_answers_as_scan_structural_partial re-instantiates only the record boundaries). Machine-word effects (u64 wrap, width <= 32 in FixedWidthIterator, lengths >= 2^62) are outside the models. Trusted: Coq kernel; tools/constants.py; ExtrOcamlBasic extraction + ocaml/scrunch driver; harness c19; std binary_search/partition_point/sort/HashMap as specified. Texts need a valid record division (non-empty text, last record non-empty): both constructors refuse the rest.",
 }
 
@@ -307,6 +308,65 @@ def run_lines(exe, lines, workdir, tag, timeout=3000):
     return res
 
 
+def case_deadline(line, quick):
+    """seconds a single harness case may take before it counts as 'does not terminate'"""
+    f = line.split("|")
+    if f[0] in ("fuzz", "deep"):
+        return 600 if quick else 3000
+    if f[0] == "bv" and len(f) > 2 and f[2] != "-":
+        return 20 + sum(int(r.split(":")[0]) for r in f[2].split()) // 400
+    return 20
+
+
+def run_lines_deadline(exe, lines, workdir, tag, quick, max_hung=3):
+    """run the harness over the lines with a deadline on EVERY case (the harness flushes one output
+    line per case): a case that does not answer in time is killed, its output is "TIMEOUT", and the
+    harness is restarted on the cases after it.  Returns (outputs, [indices of hung cases])."""
+    import select
+    import subprocess
+    outs, hung, start = [None] * len(lines), [], 0
+    while start < len(lines):
+        p = os.path.join(workdir, tag + ".in")
+        with open(p, "w") as fh:
+            fh.write("\n".join(lines[start:]) + "\n")
+        e = dict(os.environ)
+        with open(p, "rb") as fin:
+            proc = subprocess.Popen([exe], stdin=fin, stdout=subprocess.PIPE, stderr=subprocess.DEVNULL, env=e)
+        fd, buf, i, t0, timed_out, eof = proc.stdout.fileno(), b"", start, time.time(), False, False
+        while i < len(lines):
+            nl = buf.find(b"\n")
+            if nl >= 0:
+                outs[i] = buf[:nl].decode("utf-8", "replace")
+                buf, i, t0 = buf[nl + 1:], i + 1, time.time()
+                continue
+            left = case_deadline(lines[i], quick) - (time.time() - t0)
+            ready = select.select([fd], [], [], left)[0] if left > 0 else []
+            if not ready:
+                timed_out = True
+                break
+            chunk = os.read(fd, 1 << 20)
+            if not chunk:
+                eof = True
+                break
+            buf += chunk
+        if timed_out:
+            proc.kill()
+            proc.wait()
+            outs[i] = "TIMEOUT"
+            hung.append(i)
+            start = i + 1
+            if len(hung) >= max_hung:
+                for k in range(start, len(lines)):
+                    outs[k] = "SKIPPED"
+                break
+            continue
+        rc = proc.wait()
+        if eof or i < len(lines):
+            raise RuntimeError("%s: the harness died after %d of %d cases (rc=%s) at: %s" % (tag, i, len(lines), rc, lines[i][:600] if i < len(lines) else ""))
+        start = len(lines)
+    return outs, hung
+
+
 def load_corpus():
     d = os.path.join(vlib.VERIF, "corpus", "C19")
     cases = []
@@ -368,11 +428,17 @@ def run(chk):
 
     ncorpus = 0
     corpus_bv = []
+    corpus_bvidx = []
     for fn, c in load_corpus():
         if c.get("kind") == "bv":
             for ln in c["lines"]:
                 runs = [(int(r.split(":")[0]), int(r.split(":")[1])) for r in ln.split("|")[2].split()]
                 corpus_bv.append(runs)
+            continue
+        if c.get("kind") == "bvidx":
+            for ln in c["lines"]:
+                f = ln.split("|")
+                corpus_bvidx.append((int(f[1]), int(f[2]), [] if f[3].strip() in ("-", "") else [int(x) for x in f[3].split()]))
             continue
         add_doc(c.get("flags", "CDkRPWXN"), c["text"], c["rb"], c["needles"], c.get("model", True), "corpus:" + fn)
         ncorpus += 1
@@ -468,6 +534,23 @@ def run(chk):
         for kind in BV_KINDS:
             bv_lines.append("bv|%s|%s" % (kind, spec))
             bv_meta.append((kind, runs, small or (kind == "rrr" and nbits <= 1600)))
+    # ---------------- sparse::BitVector::from_indices on arbitrary index lists
+    bvidx = list(corpus_bvidx)
+    for k in range(120 if quick else 1500):
+        n = rng.choice([0, 1, 2, 5, 16, 17, 63, 64, 200]) if rng.chance(2, 3) else rng.range(0, 190)
+        idx = sorted(set(rng.below(max(n, 1)) for _ in range(rng.range(0, min(n, 40) + 1)))) if n else []
+        shape = rng.below(8)
+        if shape == 0:
+            idx = [i for i in idx if i < n] + [n]                 # last index = len
+        elif shape == 1:
+            idx = idx + [n + 1 + rng.below(3)]                    # last index > len
+        elif shape == 2 and idx:
+            idx = idx + [idx[-1]]                                 # duplicate
+        elif shape == 3 and len(idx) > 1:
+            j = rng.below(len(idx) - 1)
+            idx[j], idx[j + 1] = idx[j + 1], idx[j]               # unsorted
+        bvidx.append((rng.choice([3, 4, 4, 16, 16, 16, 128, 255, 256]), n, idx))
+    bvidx_lines = ["bvidx|%d|%d|%s" % (b, n, fl(idx)) for b, n, idx in bvidx]
     # ---------------- wavelet trees
     wt_lines, wt_meta = [], []
     for k in range(60 if quick else 1200):
@@ -495,12 +578,19 @@ def run(chk):
                        "fuzz|%d|40|70000|40000" % (fs + 4), "deep|wt|34", "deep|wt|36", "deep|doc|33", "deep|doc|34"]
 
     model_lines = [d["line"] if d["model"] else "" for d in docs]
-    impl_out = run_lines(hxbin, lines + bv_lines + wt_lines + sais_lines + fuzz_lines, chk.work, "impl")
-    model_in = model_lines + [l if m[2] else "" for l, m in zip(bv_lines, bv_meta)] + wt_lines + sais_lines + ["rrrtab"]
+    impl_in = lines + bv_lines + wt_lines + sais_lines + fuzz_lines + bvidx_lines
+    impl_out, hung = run_lines_deadline(hxbin, impl_in, chk.work, "impl", quick)
+    model_in = model_lines + [l if m[2] else "" for l, m in zip(bv_lines, bv_meta)] + wt_lines + sais_lines + bvidx_lines + ["rrrtab"]
     model_out = run_lines(mx, model_in, chk.work, "model")
 
     evaluations = 0
     prop_bad, corr_bad, machinery = [], [], []
+    # a case the implementation does not answer within its deadline is a failure of the property
+    # ("answers every query"): the input is the replay
+    for i in hung:
+        prop_bad.append({"variant": "query does not terminate", "line": impl_in[i], "deadline_s": case_deadline(impl_in[i], quick),
+                         "what": "the harness did not answer this case within its deadline and was killed"})
+    stats["cases_not_terminating"] = len(hung)
     distinct = set()
 
     # ---------------- documents
@@ -646,6 +736,34 @@ def run(chk):
             prop_bad.append({"variant": "sais/psi", "line": sais_lines[j], "got": io[:300], "spec": "sa=%s psi=%s" % (jn(exp), jn(psi_))})
         if mo != "sa=%s psi=%s" % (jn(exp), jn(psi_)):
             corr_bad.append({"section": "sais/psi", "line": sais_lines[j], "model": mo[:300], "sorted": jn(exp)})
+    # ---------------- from_indices on arbitrary index lists
+    ioff = len(impl_in) - len(bvidx_lines)
+    moff = len(model_in) - 1 - len(bvidx_lines)
+    stats["from_indices_cases"] = len(bvidx)
+    stats["from_indices_must_refuse"] = 0
+    for j, (br, n, idx) in enumerate(bvidx):
+        io, mo = impl_out[ioff + j], model_out[moff + j]
+        accept = 4 <= br < 256 and all(a < b for a, b in zip(idx, idx[1:])) and (not idx or idx[-1] < n)
+        stats["from_indices_must_refuse"] += (not accept)
+        evaluations += 1
+        if not accept:
+            if io != "CE":
+                prop_bad.append({"variant": "sparse::from_indices accepts an index list that is not a bit vector of this length", "line": bvidx_lines[j],
+                                 "what": "branch=%d len=%d indices=%s: expected refusal, got %s" % (br, n, fl(idx), io[:400])})
+            if mo != "CE":
+                corr_bad.append({"section": "sparse:from_indices:acceptance", "line": bvidx_lines[j], "impl": io[:200], "model": mo[:200]})
+            continue
+        bits = [0] * n
+        for i in idx:
+            bits[i] = 1
+        tabs = bv_tables(bits)
+        toks = dict(t.split("=", 1) for t in io.split(" ") if "=" in t)
+        evaluations += sum(len(t) for t in tabs)
+        if not io.startswith("OK ") or toks.get("len") != str(n) or toks.get("bad") != "0" or any(toks.get(nm) != ",".join(tab) for nm, tab in zip("arzst", tabs)):
+            prop_bad.append({"variant": "bit_vector:sparse:from_indices", "line": bvidx_lines[j], "what": io[-400:]})
+        mt = dict(t.split("=", 1) for t in mo.split(" ") if "=" in t)
+        if not mo.startswith("OK ") or any(mt.get(nm) != toks.get(nm) for nm in "arzst"):
+            corr_bad.append({"section": "sparse:from_indices:structural-model", "line": bvidx_lines[j], "impl": io[:300], "model": mo[:300]})
     # ---------------- the L / K tables of rrr.rs against the model's (and against n-choose-k)
     import math
     import re
@@ -701,7 +819,7 @@ def run(chk):
             "tools/constants.py (CTX_MAX / CTX_SZ re-extracted from scrunch/src/psi/wavelet_tree.rs); the sampling rate 6 is a literal in lib.rs, retyped",
             "extraction via ExtrOcamlBasic (no Extract Constant of ours) + ocaml/scrunch/mx_scrunch.ml driver",
             "harness/src/bin/c19.rs (its naive scan is cross-checked against the Python scan on every case)",
-            "by interface, compared not proved: SA-IS (sais.rs), RRR / sparse / reference bit vectors, prefix wavelet tree + Huffman / fixed-width encoders, bit arrays, protobuf framing, std binary_search / partition_point / sort / HashMap",
+            "by interface, compared not proved: SA-IS (sais.rs), the cf_rrr / reference bit vectors, the Huffman encoder (incl. the one-symbol book), serialise + re-parse of every structure (bit arrays' byte loops, sparse node headers, protobuf framing: the clause 'serialising and re-parsing changes nothing' is correspondence only), std binary_search / partition_point / sort / HashMap",
             "unsafe code in lib.rs / psi/wavelet_tree.rs (get_unchecked, MaybeUninit) is modelled as checked access: reading an unwritten slot is a Panic the theorems exclude",
         ],
     })
@@ -726,8 +844,21 @@ def replay(path):
         return 1
     okh, outh, (hxbin,) = vlib.cargo_build(["c19"])
     line = case["line"]
-    rc, out = vlib.sh([hxbin], stdin=(line + "\n").encode(), timeout=1200)
+    rc, out = vlib.sh([hxbin], stdin=(line + "\n").encode(), timeout=case.get("deadline_s", 1200))
     print("impl now :", out.strip()[:3000])
+    if rc == 124:
+        print("still does not terminate within", case.get("deadline_s", 1200), "s")
+        return 1
+    if case.get("variant") == "query does not terminate":
+        print("the case now terminates")
+        return 0
+    if line.startswith("bvidx|"):
+        f = line.split("|")
+        idx = [] if f[3].strip() in ("-", "") else [int(x) for x in f[3].split()]
+        accept = 4 <= int(f[1]) < 256 and all(a < b for a, b in zip(idx, idx[1:])) and (not idx or idx[-1] < int(f[2]))
+        still = (out.strip() != "CE") if not accept else (" bad=0" not in " " + out)
+        print("still differs" if still else "agrees now")
+        return 1 if still else 0
     if line.startswith("doc|"):
         f = line.split("|")
         nums = lambda s: [] if s.strip() in ("-", "") else [int(x) for x in s.split()]
